@@ -535,6 +535,69 @@ CONFIG = [
     ('fse_init', 'searchkit/exception.py', 'FileSearchException.__init__',
      {'locks': {}, 'calls': {'super().__init__': 'super_init'},
       'cells': {'self.msg': 'msg', 'self.args': 'args'}}),
+    # ---- constructors / accessors mirrored by Model/Task.v (C01 / C07):
+    # which argument flows into which attribute, what is compiled, in which
+    # order (arguments are cells named arg_*)
+    ('searchdefbase_init', 'searchkit/searchdef.py', 'SearchDefBase.__init__',
+     {'locks': {},
+      'cells': {'self._constraints': 'constraints_attr',
+                'constraints': 'arg_constraints', 'self.id': 'id'}}),
+    ('searchdefbase_constraints', 'searchkit/searchdef.py',
+     'SearchDefBase.constraints',
+     {'locks': {},
+      'cells': {'self._constraints': 'constraints_attr',
+                'c.id': 'constraint_id'}}),
+    ('searchdefbase_id', 'searchkit/searchdef.py', 'SearchDefBase.id',
+     {'locks': {}, 'calls': {'uuid.uuid4': 'uuid4'}}),
+    ('searchdef_init', 'searchkit/searchdef.py', 'SearchDef.__init__',
+     {'locks': {},
+      'calls': {'re.compile': 're_compile', 'super().__init__': 'super_init',
+                'isinstance': 'isinstance'},
+      'cells': {'self.patterns': 'patterns', 'pattern': 'arg_pattern',
+                'self.store_result_contents': 'store_result_contents',
+                'store_result_contents': 'arg_store_result_contents',
+                'self.tag': 'tag', 'tag': 'arg_tag',
+                'self.field_info': 'field_info',
+                'field_info': 'arg_field_info',
+                'self.hint': 'hint', 'hint': 'arg_hint',
+                'self.sequence_def': 'sequence_def'}}),
+    ('searchdef_link_to_sequence', 'searchkit/searchdef.py',
+     'SearchDef.link_to_sequence',
+     {'locks': {},
+      'cells': {'self.sequence_def': 'sequence_def',
+                'sequence_def': 'arg_sequence_def',
+                'self.tag': 'tag', 'tag': 'arg_tag'}}),
+    ('searchtask_init', 'searchkit/task.py', 'SearchTask.__init__',
+     {'locks': {},
+      'calls': {'SearchTaskStats': 'stats_new'},
+      'cells': {'self.proc': 'proc', 'self.info': 'info', 'info': 'arg_info',
+                'self.stats': 'stats',
+                'self.constraints_manager': 'constraints_manager',
+                'constraints_manager': 'arg_constraints_manager',
+                'self.results_manager': 'results_manager',
+                'results_manager': 'arg_results_manager',
+                'self.decode_kwargs': 'decode_kwargs',
+                'decode_errors': 'arg_decode_errors',
+                'self.results_buffer': 'results_buffer'}}),
+    ('resultsmanager_init', 'searchkit/task.py',
+     'SearchTaskResultsManager.__init__',
+     {'locks': {},
+      'cells': {'self._results_store': 'results_store',
+                'results_store': 'arg_results_store',
+                'self._results_queue': 'results_queue',
+                'results_queue': 'arg_results_queue',
+                'self._results_collection': 'results_collection',
+                'results_collection': 'arg_results_collection'}}),
+    ('resultsmanager_results_store', 'searchkit/task.py',
+     'SearchTaskResultsManager.results_store',
+     {'locks': {}, 'cells': {'self._results_store': 'results_store'}}),
+    ('resultsmanager_results_queue', 'searchkit/task.py',
+     'SearchTaskResultsManager.results_queue',
+     {'locks': {}, 'cells': {'self._results_queue': 'results_queue'}}),
+    ('resultsmanager_results_collection', 'searchkit/task.py',
+     'SearchTaskResultsManager.results_collection',
+     {'locks': {},
+      'cells': {'self._results_collection': 'results_collection'}}),
 ]
 
 ARG0 = {'Acq', 'Rel', 'Rd', 'Wr', 'Call', 'Handler', 'RaiseE'}
